@@ -6,15 +6,20 @@
    container, and a container can even become its own descendant.  The model therefore works on a
    heap of container nodes addressed by index; scalars are immutable and stay inline.
 
-   [Crash] stands for a Go panic or a fatal runtime error of the real library:
+   [Crash] stands for a Go panic of the real library (recoverable; composer.applyJSON now turns it
+   into an error, see [apply_json_outcome]):
      - index out of range on a negative array index in get/set (replace, test, copy, move),
      - nil dereference: walking into a node created by  "value": null;  [test] without a value member
        against a null/absent target;  lazyNode.equal reaching a nil pointer (null inside a container),
      - assignment to a nil map (document text "null"),
-     - unbounded recursion in json.Marshal when a container became reachable from itself (fatal
-       stack overflow, not recoverable),
-     - makeslice panic / out-of-memory when [copy]/[move] write far behind the end of an array
-       (abstracted: more than [pad_limit] padding elements counts as Crash).
+     - "makeslice: len out of range" when [copy]/[move] write at an index >= 2^45.
+   [Fatal] stands for a fatal runtime error (the process dies, recover() does not help):
+     - unbounded recursion in json.Marshal when a container became reachable from itself (stack
+       overflow); it happens only when every operation succeeded, at the final marshal,
+     - out of memory when [copy]/[move] write far behind the end of an array: the library allocates
+       index+1 pointers.  Abstraction: more than [pad_limit] padding elements (and index < 2^45)
+       counts as Fatal; the real outcome between [pad_limit] and the available memory is a very large
+       but successful allocation.
 
    Laziness of the real library (it works on raw JSON text) is invisible on the AST except:
      - scalars are compared as compacted TEXT by [test]; on the AST they are compared by [json_eqb].
@@ -28,16 +33,18 @@ From SV Require Import Base.Bytes Json.Ast.
 Import ListNotations.
 Local Open Scope Z_scope.
 
-Inductive outcome := Ok (d : json) | Err | Crash.
+(* [Crash] = a Go panic that recover() can catch; [Fatal] = a fatal runtime error that kills the process *)
+Inductive outcome := Ok (d : json) | Err | Crash | Fatal.
 
-(* three-valued results of the internal steps *)
-Inductive res (A : Type) := ROk (a : A) | RErr | RCrash.
+(* results of the internal steps *)
+Inductive res (A : Type) := ROk (a : A) | RErr | RCrash | RFatal.
 Arguments ROk {A} a.
 Arguments RErr {A}.
 Arguments RCrash {A}.
+Arguments RFatal {A}.
 
 Definition rbind {A B} (r : res A) (f : A -> res B) : res B :=
-  match r with ROk a => f a | RErr => RErr | RCrash => RCrash end.
+  match r with ROk a => f a | RErr => RErr | RCrash => RCrash | RFatal => RFatal end.
 
 (* ---------- RFC 6901 pointers as the library reads them ---------- *)
 
@@ -193,6 +200,8 @@ Fixpoint load (j : json) (h : heap) {struct j} : hval * heap :=
 (* ---------- container methods ---------- *)
 
 Definition pad_limit : Z := 65536.
+(* make([]*lazyNode, n) panics when 8*n exceeds maxAlloc = 2^48 (linux/amd64), i.e. n = idx+1 > 2^45 *)
+Definition makeslice_limit : Z := 35184372088832.
 
 Definition zlen {A} (l : list A) : Z := Z.of_nat (length l).
 
@@ -226,7 +235,8 @@ Definition c_set (c : cnode) (key : bytes) (v : hval) : res cnode :=
            if idx =? max_int then RErr                   (* idx+1 wraps; idx >= len(ary) *)
            else if idx <? 0 then RCrash                  (* ary[idx], idx < 0 *)
            else if idx <? zlen l then ROk (CAry (upd_nth (Z.to_nat idx) v l))
-           else if idx - zlen l >? pad_limit then RCrash (* make([]*lazyNode, idx+1): panic / OOM *)
+           else if idx >=? makeslice_limit then RCrash    (* make([]*lazyNode, idx+1): len out of range *)
+           else if idx - zlen l >? pad_limit then RFatal  (* make([]*lazyNode, idx+1): out of memory *)
            else ROk (CAry (l ++ repeat HNil (Z.to_nat (idx - zlen l)) ++ [v]))
          end
   end.
@@ -291,6 +301,7 @@ Definition find_object (h : heap) (root : nat) (path : bytes) : res (nat * bytes
     | ROk r => ROk (r, last toks [])
     | RErr => RErr
     | RCrash => RCrash
+    | RFatal => RFatal
     end
   end.
 
@@ -550,10 +561,11 @@ Definition jp_apply (ops : json) (d : json) : outcome :=
       match apply_ops h root os with
       | RErr => Err
       | RCrash => Crash
+      | RFatal => Fatal
       | ROk h' =>
         match unfold (S (length h')) h' (HRef root) with
         | Some j => Ok j
-        | None => Crash
+        | None => Fatal        (* cyclic node: json.Marshal overflows the stack *)
         end
       end
     end
@@ -561,6 +573,11 @@ Definition jp_apply (ops : json) (d : json) : outcome :=
 
 Definition jp_apply_opt (ops : json) (d : json) : option json :=
   match jp_apply ops d with Ok j => Some j | _ => None end.
+
+(* doccomposer.applyJSON (since commit 9f6d729): a panic of the library is recovered and returned as an
+   error; fatal errors still kill the process *)
+Definition apply_json_outcome (ops : json) (d : json) : outcome :=
+  match jp_apply ops d with Crash => Err | o => o end.
 
 (* object member of a document (None when absent or when the document is not an object) *)
 Definition jmember (k : String.string) (d : json) : option json :=
@@ -585,8 +602,8 @@ Example ex_replace_neg_crash :
   jp_apply (JArr [mk_op "replace" "/a/-1" [(bs "value", jn 9)]]) ex_doc = Crash.
 Proof. reflexivity. Qed.
 
-Example ex_copy_into_self_crash :
-  jp_apply (JArr [mk_op "copy" "/a/-" [(bs "from", JStr (bs "/a"))]]) ex_doc = Crash.
+Example ex_copy_into_self_fatal :
+  jp_apply (JArr [mk_op "copy" "/a/-" [(bs "from", JStr (bs "/a"))]]) ex_doc = Fatal.
 Proof. reflexivity. Qed.
 
 Example ex_copy_aliases :   (* copy shares the node: the later add is visible at both places *)
